@@ -36,7 +36,8 @@ UNPROVED = []
 
 
 def _child(site_desc, opts, conc, seed, workdir, logpath, kill, run_index=0):
-    """Runs in a forked child. kill = None | ('table', k) | ('commit', k) | ('request', k)."""
+    """Runs in a forked child. kill = None | ('table', k) | ('commit', k) | ('request', k) | ('sigterm', k): the
+    application's own SIGTERM handler is run when the k-th request arrives."""
     fd = os.open(logpath, os.O_WRONLY | os.O_CREAT | os.O_APPEND, 0o644)
     counters = {'table': 0, 'commit': 0, 'request': 0}
 
@@ -52,6 +53,22 @@ def _child(site_desc, opts, conc, seed, workdir, logpath, kill, run_index=0):
         counters['request'] += 1
         if kill and kill[0] == 'request' and counters['request'] == kill[1]:
             os._exit(77)
+        if kill and kill[0] == 'sigterm' and counters['request'] == kill[1]:
+            term['fire']()
+
+    term = {}
+
+    def on_app(app, builder):
+        # SIGTERM (or a second Ctrl+C) while requests are in flight: the application's OWN handler runs, as the
+        # event loop would call it, and the process is gone when that handler has stopped the loop
+        import asyncio
+        import signal
+        loop = asyncio.get_event_loop()
+        handlers = {}
+        loop.add_signal_handler = lambda sig, cb, *a: handlers.__setitem__(sig, cb)
+        app.setup_signal_handlers()
+        loop.stop = lambda: os._exit(77)
+        term['fire'] = lambda: loop.call_soon(handlers[signal.SIGTERM])
 
     import sqlalchemy.event
     from sqlalchemy.engine import Engine
@@ -66,7 +83,7 @@ def _child(site_desc, opts, conc, seed, workdir, logpath, kill, run_index=0):
     try:
         res, _ = cc.run_real(site, opts, seed, conc, workdir=workdir, db=os.path.join(workdir, 'crawl.db'),
                              event_sink=sink, on_request=on_request, start_urls=site.start_urls() if site.inputs else None,
-                             run_index=run_index)
+                             run_index=run_index, on_app=on_app if kill and kill[0] == 'sigterm' else None)
         os.write(fd, (json.dumps({'op': 'exit', 'exit_code': res.exit_code, 'hung': res.hung, 'error': res.error,
                                   'counters': counters}) + '\n').encode())
         rc = 0
@@ -219,7 +236,8 @@ def explore_site(ctx, site, opts, conc, seed, stride=1, only=None):
     c = ex['counters']
     points = [('table', k) for k in range(1, c['table'] + 1, stride)] + \
              [('commit', k) for k in range(1, c['commit'] + 1, stride)] + \
-             [('request', k) for k in range(1, c['request'] + 1)]
+             [('request', k) for k in range(1, c['request'] + 1)] + \
+             [('sigterm', k) for k in range(1, c['request'] + 1, 2)]
     if only:
         points = [kp for kp in points if only(kp)]
     args = [(desc, opts, conc, seed, kp) for kp in points]
@@ -271,6 +289,9 @@ def run(ctx):
         opts['database_uri'] = plan == 3 or rng.random() < 0.1        # --database-uri sqlite:///FILE instead of --database FILE
         opts['warc_dedup'] = (plan == 2 or rng.random() < 0.1) and not opts['timestamping']   # start-up loads a CDX index again on the rerun
         opts['tries'] = 1 if plan == 2 else rng.choice([2, 2, 3])
+        # the command as typed in the run's directory: relative --database and -P, the output directory made by the
+        # first run (the same command must find the same database the second time)
+        opts['relative_paths'] = (plan == 1 or rng.random() < 0.2) and not opts['database_uri']
         leaves = [p for p, d in site.pages.items() if d['kind'] == 'leaf']
         if leaves and (plan == 1 or rng.random() < 0.25):
             site.pages[rng.choice(leaves)] = {'kind': 'flaky'}
